@@ -25,6 +25,8 @@ def build_sim(world: World, situation: dict, knobs: dict | None = None, inputs=(
     """Build with the real builder, apply knobs, then set inputs (so they can spill)."""
     knobs = knobs or {}
     tbs = tbs or world.tbs
+    if "blacklist" in knobs:
+        tbs.cache_blacklist = frozenset(knobs["blacklist"]) or None
     with warnings.catch_warnings():
         warnings.simplefilter("ignore")
         sim = SimulationBuilder().build_from_entities(tbs, _copy_situation(situation))
